@@ -56,11 +56,16 @@ func area(polygon []geom.Point) float64 {
 		return 0
 	}
 	highI := len(polygon) - 1
-	A := (polygon[highI].X +
-		polygon[0].X) * (polygon[0].Y - polygon[highI].Y)
+	// The X coordinates are taken relative to the first vertex (the Y
+	// differences add up to zero around the ring, so the sum is the same):
+	// with absolute coordinates the products lose the digits of a ring that
+	// is small compared with its distance from the origin.
+	x0 := polygon[0].X
+	A := ((polygon[highI].X - x0) +
+		(polygon[0].X - x0)) * (polygon[0].Y - polygon[highI].Y)
 	for i := 0; i < highI; i++ {
-		A += (polygon[i].X +
-			polygon[i+1].X) * (polygon[i+1].Y - polygon[i].Y)
+		A += ((polygon[i].X - x0) +
+			(polygon[i+1].X - x0)) * (polygon[i+1].Y - polygon[i].Y)
 	}
 	return A / 2.
 }
